@@ -151,8 +151,8 @@ def collect(ck, tier, ex):
     cpath = os.path.join(vlib.CACHE, "backend_%s.json" % key)
     if os.path.exists(cpath):
         return json.load(open(cpath))
-    n_random = 60 if tier == "quick" else 600
-    nops = 60 if tier == "quick" else 90
+    n_random = 60 if tier == "quick" else 3000
+    nops = 60 if tier == "quick" else 120
     workdir = os.path.join(vlib.CACHE, "h2work_%d" % os.getpid())
     os.makedirs(workdir, exist_ok=True)
     jobs = []
